@@ -172,7 +172,9 @@ def gen_cases(ctx):
     for _ in range(n):
       shape = rng.choice(['dict', 'dict', 'dict', 'int', 'cols', 'colsfix', 't2'])
       nrec = rng.choice([0, 1, 2, 3, 4, 5, 6, 8])
-      yield mk_case(G.gen_chain(rng, shape, 6), G.make_items(rng, shape, nrec), ignore=rng.random() < 0.25)
+      specs = G.gen_chain(rng, shape, 6)
+      if specs:
+        yield mk_case(specs, G.make_items(rng, shape, nrec), ignore=rng.random() < 0.25)
   yield from counted(rand(1500 if quick else 30000), 'typed')
 
   def wild(n):
@@ -189,6 +191,24 @@ def gen_cases(ctx):
         yield mk_case(specs, G.make_items(rng, shape, rng.randrange(0, 9)), threads=2,
                       kind=rng.choice(['list', 'seq']))
   yield from counted(threaded(60 if quick else 1500), 'threads')
+
+
+REQUIRED = {
+    'operator': ['select', 'apply', 'assign', 'filter', 'batch', 'sink', 'aggregate', 'apply+batch', 'select+batch', 'assign+batch'],
+    'key_shape': ['single', 'kwargs', 'tuple0', 'tuple1', 'tuple2', 'tuple3', 'bare-name', 'index', 'path-1', 'path-nested',
+                  'path-with-index', 'dict-output-key', 'SELF', 'SKIP', 'LIT'],
+    'class': ['systematic', 'typed', 'wild', 'threads'],
+    'outcome': ['built', 'rejected:ValueError', 'rejected:KeyError', 'rejected:TypeError'],
+}
+
+
+def extra(ctx):
+  """Coverage promise of the generator (else: infrastructure failure, not a verdict): every operator kind, key shape
+  and builder outcome is exercised."""
+  from harness.core import InfraError
+  missing = [f'{h}:{v}' for h, vs in REQUIRED.items() if h != 'outcome' for v in vs if v not in ctx.hist.get(h, {})]
+  if missing:
+    raise InfraError(f'generator missed promised classes: {missing}')
 
 
 def key_shapes(spec):
